@@ -28,6 +28,7 @@ def _split(paths, n, outprefix):
         if not part:
             raise vlib.ModelFailure("driver produced no events: " + p)
         lines += part
+        os.remove(p)                 # the pieces written below replace it
     n = max(1, min(n, (len(lines) + 4999) // 5000))
     per = (len(lines) + n - 1) // n
     outs = []
@@ -47,8 +48,12 @@ def _tv(chunks, tag, par):
         futs = [ex.submit(vlib.tlc_tv, "IntMathTrace.tla", "IntMathTrace.cfg", tp, "%s_%d" % (tag, i), "3g", 3600, JENV)
                 for i, tp in enumerate(chunks)]
         res = [f.result() for f in futs]
-    return {"events": sum(r["events"] for r in res), "deviations": [d for r in res for d in r["deviations"]],
-            "wall": max(r["wall"] for r in res)}
+    out = {"events": sum(r["events"] for r in res), "deviations": [d for r in res for d in r["deviations"]],
+           "wall": max(r["wall"] for r in res)}
+    if not out["deviations"]:
+        for tp in chunks:            # several GB in the thorough tier; every run regenerates them
+            os.remove(tp)
+    return out
 
 
 def model(tier):
